@@ -33,7 +33,7 @@ class BridgeReplay:
         self.beh = beh
         self.rng = random.Random(seed)
         self.net = vnet.VNet()
-        self.loop = vnet.VLoop(self.net)
+        self.loop = vnet.VLoop(self.net, vtime=True)
         self.delivered: dict[int, list[int]] = {}
         self.queues: dict[int, list[tuple[int, str, bytes]]] = {}
         self.others: set[int] = set()
@@ -79,7 +79,7 @@ class BridgeReplay:
                         await asyncio.sleep(0)
             elif a == "Stop":
                 try:
-                    await bridge.stop()
+                    await vnet.bounded(bridge.stop())
                 except Exception as x:  # noqa: BLE001 - stop() is safe in every state: an exception is a mismatch, not a harness failure
                     self.mismatch.append({"step": n, "action": a, "what": "running-flag", "expected": "stop() returns", "observed": "raised " + type(x).__name__})
                     break
@@ -143,7 +143,7 @@ class BridgeReplay:
         if task is not None and not task.done():
             task.cancel()
         try:
-            await bridge.stop()
+            await vnet.bounded(bridge.stop())
         except Exception:  # noqa: BLE001
             pass
         await vnet.settle(3)
